@@ -134,3 +134,79 @@ print(json.dumps({"keys_before": keys, "keys_after": sorted(p)}))
         return {"reproduced": False, "reason": err[-400:]}
     r = json.loads(out.strip().splitlines()[-1])
     return {"reproduced": r["keys_before"] != r["keys_after"], "real_code": r, "expected": "the dictionary passed in is unchanged"}
+
+
+def gl_cartesian_q(run):
+    """DynamicalMatrixGL._get_Gonze_dipole_dipole: the Cartesian q-point (and direction) handed to the reciprocal-space
+    dipole-dipole kernel is rec_lat . q with rec_lat the reciprocal basis as column vectors -- the same conversion the C solver
+    uses (get_q_cart, C02), so that what is subtracted at the commensurate points is what is added back."""
+    from contracts.py_cells import mat3, vals
+    mod = pyexec.load(DF)
+    m = mod.method("DynamicalMatrixGL", "_get_Gonze_dipole_dipole")
+    pref = DF + ":DynamicalMatrixGL._get_Gonze_dipole_dipole"
+    st = PState()
+    rec = mat3(st, "rec")
+    rv = list(vals(st, rec))
+    q = st.new(NDArr((3,), [z3.Real("q_%d" % i) for i in range(3)]))
+    qd = st.new(NDArr((3,), [z3.Real("n_%d" % i) for i in range(3)]))
+    qv, nv = list(st.heap[q.id].flat), list(st.heap[qd.id].flat)
+    cap = []
+
+    def crecip(ex, st_, args, kwargs):
+        cap.append((st_.clone(), args[0], args[1] if len(args) > 1 else None))
+        return Opaque("C_recip")
+    pcell = st.new(Record("Primitive", {"masses": Opaque("masses")}))
+    self_ref = st.new(Record("DynamicalMatrixGL", {"_rec_lat": rec, "_pcell": pcell, "_with_full_terms": False}))
+    hooks = {"DynamicalMatrixGL._get_c_recip_dipole_dipole": crecip, "len": lambda ex, st_, a, k: 1}
+    ex = PyExec(mod, run.sink, pref, hooks=hooks, opaque_unknown=True, split=True)
+    n0 = len(run.sink.obls)
+    try:
+        ex.call_function(st, m, [q, qd], self_ref=self_ref, cls="DynamicalMatrixGL")
+    except CheckerError:
+        if not cap:
+            raise
+    if not cap:
+        raise CheckerError("_get_Gonze_dipole_dipole: the reciprocal dipole-dipole routine is never called")
+    s2, qc, qdc = cap[0]
+    for nm, got, src in (("q", qc, qv), ("q_direction", qdc, nv)):
+        if not (isinstance(got, Ref) and isinstance(s2.heap[got.id], NDArr)):
+            raise CheckerError("_get_Gonze_dipole_dipole: Cartesian %s was abstracted: %r" % (nm, got))
+        gv = [pyexec.num(x) for x in s2.heap[got.id].flat]
+        for i in range(3):
+            ob = run.sink.add(pref, "call-pre", list(s2.pc), gv[i] == sum(rv[i * 3 + j] * src[j] for j in range(3)), replay=lambda model: replay_gl_q(),
+                              meta={"label": "Cartesian %s component %d == (rec_lat . %s)[%d]" % (nm, i, nm, i)})
+            ob.backend = "poly"
+    run.functions.append({"file": DF, "function": "DynamicalMatrixGL._get_Gonze_dipole_dipole", "line": m.lineno, "sha1": mod.sha(m), "obligations": len(run.sink.obls) - n0})
+
+
+def replay_gl_q():
+    from pvc import creplay
+    import json
+    code = r'''
+import json, sys, types
+import numpy as np
+stub = types.ModuleType("phonopy._phonopy")
+sys.modules["phonopy._phonopy"] = stub
+import phonopy
+phonopy._phonopy = stub
+import phonopy.harmonic.dynamical_matrix as dmm
+got = {}
+class P:
+    masses = np.array([1.0])
+    def __len__(self): return 1
+o = dmm.DynamicalMatrixGL.__new__(dmm.DynamicalMatrixGL)
+o._pcell = P(); o._with_full_terms = False
+lat = np.array([[3.0, 0, 0], [-1.5, 2.6, 0], [0.3, 0.2, 5.0]])          # rows; reciprocal basis as columns:
+o._rec_lat = np.linalg.inv(lat)
+def fake(q_cart, q_dir_cart):
+    got["q_cart"] = np.array(q_cart); return np.zeros((1, 3, 1, 3), dtype=complex)
+o._get_c_recip_dipole_dipole = fake
+q = np.array([0.1, 0.25, -0.3])
+o._get_Gonze_dipole_dipole(q, None)
+print(json.dumps({"max_abs_deviation": float(np.abs(got["q_cart"] - o._rec_lat @ q).max())}))
+'''
+    rc, out, err = creplay.py_eval(code)
+    if rc != 0:
+        return {"reproduced": False, "reason": err[-400:]}
+    r = json.loads(out.strip().splitlines()[-1])
+    return {"reproduced": r["max_abs_deviation"] > 1e-12, "real_code": r, "input": "triclinic lattice, q = (0.1, 0.25, -0.3)", "expected": "q_cart == rec_lat @ q"}
